@@ -418,6 +418,12 @@ def mm_call_recording(ctx: Ctx, pid: str):
         want = f_not(A(("op", "in", m["m"], ("i", ("a", ("self",), "methods_by_transaction"), m["t"]))))
         ctx.check(equivalent(g, want) is None, rule + ".static-tree", e.site, "MethodMap.rec.methods_by_transaction", found=fstr(g),
                   required="inserted whenever not yet present - never conditional on enables or conditions")
+        # the inverse map is filled at the same place: transactions_by_method[m] gets the transaction exactly when
+        # methods_by_transaction[t] gets the method
+        inv = [x for _, x in fn.facts(Effect, lambda x: pmatch("self.transactions_by_method[Q_m].append(Q_t)", x.call) is not None) if x.frames == e.frames]
+        okv = len(inv) == 1 and pmatch("self.transactions_by_method[Q_m].append(Q_t)", inv[0].call) == {"m": m["m"], "t": m["t"]} and m["t"] == trans
+        ctx.check(okv, rule + ".inverse-map", e.site, "MethodMap.rec.transactions_by_method", found="; ".join(tstr(x.call) for x in inv) or "no insertion under the same condition",
+                  required="transactions_by_method[method].append(transaction) next to methods_by_transaction[transaction].append(method): the two maps are inverse relations")
     # root call: every transaction, enable C(1)
     init = _fn(ctx, MANAGER, "MethodMap.__init__", rule)
     roots = init.facts(Effect, lambda e: pmatch("rec(Q_a, Q_b, (), (), Q_e)", e.call) is not None)
@@ -425,7 +431,8 @@ def mm_call_recording(ctx: Ctx, pid: str):
     for ex, e in roots:
         m = pmatch("rec(Q_a, Q_b, (), (), Q_e)", e.call)
         lp = loops(e)
-        if len(lp) == 1 and lp[0][1] == init.param(1) and to_formula(m["e"]) is True and pmatch("TBody(Q_t._body)", m["a"]) == {"t": lp[0][0][0]}:
+        one = m["e"] == ("c", 1) or (m["e"][0] == "call" and m["e"][1] in (("n", "C"), ("n", "Const")) and m["e"][2][:1] == (("c", 1),) and m["e"][2][1:] in ((), (("c", 1),)) and not m["e"][3])
+        if len(lp) == 1 and lp[0][1] == init.param(1) and one and pmatch("TBody(Q_t._body)", m["a"]) == {"t": lp[0][0][0]} and m["b"] == ("a", lp[0][0][0], "_body"):
             ok = True
     ctx.check(ok, rule + ".roots", init.site, "MethodMap.__init__.roots", found="; ".join(tstr(e.call) for _, e in roots) or "none",
               required="rec(TBody(t._body), t._body, (), (), C(1)) for every transaction")
